@@ -90,6 +90,24 @@ class Result:
         self.functions.add(fi.qualname)
         self.modules.add(fi.module.name)
 
+    def borrow(self, fn, rule: str, *args, **kwargs) -> None:
+        """Run a rule of ANOTHER property here, under this property's rule id `rule`: a structural condition that two
+        properties both depend on is checked (and reported) by both.  Floors and self-tests stay with the owner."""
+        sub = Result(self.prop)
+        fn(args[0], sub, *args[1:], **kwargs)  # every rule function is fn(prog, res, ...)
+        n_ok = sub.discharged
+        for f in sub.findings:
+            self.ob(rule, False, f.function, f"[{f.rule}] {f.construct}", f.message, f.where, f.derivation)
+        self.obligations += n_ok
+        self.discharged += n_ok
+        self.rule_instances[rule] = self.rule_instances.get(rule, 0) + n_ok
+        self.functions |= sub.functions
+        self.modules |= sub.modules
+        # an incomplete borrowed analysis makes this one incomplete too (never a silent pass)
+        for m in sub.incomplete:
+            if "floor is" not in m:
+                self.incomplete.append(f"{rule}: {m}")
+
 
 def load_known() -> List[Dict[str, Any]]:
     if not KNOWN.exists():
